@@ -1,16 +1,13 @@
 use crate::channel::{ReceiverChannel, SenderChannel};
 use crate::store_impl::ActionOp;
 use crate::{Subscriber, Subscription};
-#[cfg(not(rs_store_verif))]
-use std::time::Instant;
-#[cfg(rs_store_verif)]
-use verif_rt::time::Instant;
+use std::sync::Mutex;
 
 pub(crate) struct StateIteratorSubscriber<T>
 where
     T: Send + Sync + Clone + 'static,
 {
-    iter_tx: Option<SenderChannel<T>>,
+    iter_tx: Mutex<Option<SenderChannel<T>>>,
 }
 
 impl<State, Action> Subscriber<State, Action> for StateIteratorSubscriber<(State, Action)>
@@ -19,7 +16,9 @@ where
     Action: Send + Sync + Clone + 'static,
 {
     fn on_notify(&self, state: &State, action: &Action) {
-        if let Some(iter_tx) = self.iter_tx.as_ref() {
+        // send on a clone: the send may wait for the consumer and must not hold the lock
+        let iter_tx = self.iter_tx.lock().unwrap().clone();
+        if let Some(iter_tx) = iter_tx {
             match iter_tx.send(ActionOp::Action((state.clone(), action.clone()))) {
                 Ok(_) => {}
                 Err(_e) => {
@@ -31,10 +30,12 @@ where
     }
 
     fn on_unsubscribe(&self) {
-        // when the subscriber is unsubscribed, send an exit message to the iterator not to wait forever
-        if let Some(iter_tx) = self.iter_tx.as_ref() {
-            let _ = iter_tx.send(ActionOp::Exit(Instant::now()));
-        }
+        // when the subscriber is unsubscribed, hang up so that the iterator does not wait forever:
+        // it still yields what is queued and then sees the channel disconnected.
+        // (sending an exit message could block on a full channel while the caller holds the
+        // subscribers lock, which the consumer may need before it reads again)
+        let iter_tx = self.iter_tx.lock().unwrap().take();
+        drop(iter_tx);
     }
 }
 
@@ -43,8 +44,8 @@ where
     State: Send + Sync + Clone + 'static,
 {
     fn drop(&mut self) {
-        if let Some(iter_tx) = self.iter_tx.take() {
-            drop(iter_tx);
+        if let Ok(mut iter_tx) = self.iter_tx.lock() {
+            drop(iter_tx.take());
         }
         #[cfg(dev)]
         eprintln!("store: StateSubscriber done");
@@ -56,7 +57,7 @@ where
     T: Send + Sync + Clone + 'static,
 {
     pub fn new(tx: SenderChannel<T>) -> Self {
-        StateIteratorSubscriber { iter_tx: Some(tx) }
+        StateIteratorSubscriber { iter_tx: Mutex::new(Some(tx)) }
     }
 }
 
